@@ -131,11 +131,17 @@ fn gen_int(r: &mut Rng) -> i64 {
 }
 
 fn gen_str(r: &mut Rng) -> String {
+    if r.chance(1, 12) {
+        // long strings (beyond small-buffer sizes)
+        let unit = *r.pick(&["ab", "é", "xyz ", "0123456789"]);
+        return unit.repeat(r.range(8, 40) as usize);
+    }
     r.pick(STRS).to_string()
 }
 
 fn gen_list_int(r: &mut Rng) -> VSpec {
-    let n = r.below(9);
+    // mostly short; now and then long enough to cross allocation-size thresholds (16, 32, 64 elements)
+    let n = if r.chance(1, 12) { r.range(15, 70) as u64 } else { r.below(9) };
     VSpec::List((0..n).map(|_| VSpec::Int(r.range(-3, 9))).collect())
 }
 
@@ -841,7 +847,7 @@ pub fn gen_workload(run_seed: u64, engine: Engine, lim: &Limits, faults: bool) -
             stalls,
             seed: r.next_u64(),
             enabled_sites,
-            fine_gap: *r.pick(&[0u32, 0, 3, 10, 40, 200, 2000]),
+            fine_gap: *r.pick(&[2u32, 3, 5, 10, 20, 40, 200, 2000]),
         },
     }
 }
